@@ -113,8 +113,11 @@ def audit_axioms(modules, theorems):
     key = hashlib.sha256((lean_hash() + "|" + ",".join(modules) + "|" + ",".join(theorems)).encode()).hexdigest()[:20]
     cf = os.path.join(CACHE, "audit-%s.json" % key)
     if os.path.exists(cf):
-        with open(cf) as f:
-            return json.load(f)
+        try:
+            with open(cf) as f:
+                return json.load(f)
+        except ValueError:      # another check is writing it right now: compute it ourselves
+            pass
     src = "".join("import %s\n" % m for m in modules) + "".join("#print axioms %s\n" % t for t in theorems)
     fd, path = tempfile.mkstemp(suffix=".lean", prefix="Audit", dir=CACHE)
     os.write(fd, src.encode())
@@ -135,8 +138,10 @@ def audit_axioms(modules, theorems):
     missing = [t for t in theorems if t not in res]
     if missing:
         raise Broken("axiom audit: no answer for %s\n%s" % (missing, out[-2000:]))
-    with open(cf, "w") as f:
+    fd, tmp = tempfile.mkstemp(suffix=".json", prefix="audit-", dir=CACHE)
+    with os.fdopen(fd, "w") as f:
         json.dump(res, f)
+    os.replace(tmp, cf)         # atomic: concurrent checks never see a half-written cache file
     return res
 
 
